@@ -135,6 +135,22 @@ func (g *forestGen) targetIn(file string, addr, local lang.Address, l1, l2 int, 
 			t.NestedTargets = append(t.NestedTargets, g.targetIn(file, ca, cl, a, b, mc, depth-1))
 		}
 	}
+	if depth > 0 && t.RangePtr != nil && len(addr) > 0 && r.Intn(4) == 0 {
+		// nested declarations that stand for the same block (schema.Targetable.NestedTargetables): they
+		// share the parent's range and header, so a position on the header designates the parent and the
+		// nested ones are reached through it
+		for i, n := 0, 1+r.Intn(2); i < n; i++ {
+			ca := append(addr.Copy(), lang.AttrStep{Name: pick(r, []string{"out", "id", "arn"})})
+			c := reference.Target{Addr: ca, ScopeId: t.ScopeId, Type: pick(r, refTypePool), RangePtr: t.RangePtr, DefRangePtr: t.DefRangePtr}
+			g.addrs = append(g.addrs, ca)
+			if r.Intn(3) == 0 {
+				cc := reference.Target{Addr: append(ca.Copy(), lang.AttrStep{Name: "deep"}), ScopeId: t.ScopeId, Type: pick(r, refTypePool), RangePtr: t.RangePtr, DefRangePtr: t.DefRangePtr}
+				g.addrs = append(g.addrs, cc.Addr)
+				c.NestedTargets = reference.Targets{cc}
+			}
+			t.NestedTargets = append(t.NestedTargets, c)
+		}
+	}
 	return t
 }
 
@@ -318,10 +334,23 @@ func runC11(run *Run, replay string) {
 			os reference.Origins
 		}
 		var pws []pw
-		for i, p := range paths {
+		// all forests first, so that the origins of every path can address declarations (also nested
+		// ones) of every other path: path origins then resolve across paths
+		var gens []*forestGen
+		var forests []reference.Targets
+		var all []lang.Address
+		for range paths {
 			g := &forestGen{r: r, wf: wi%3 != 2, files: []string{"main.tf", "b.tf"}}
-			ts := g.forest(1 + r.Intn(5))
-			// occasionally share addresses across paths so that path origins resolve
+			forests = append(forests, g.forest(1+r.Intn(5)))
+			gens = append(gens, g)
+			all = append(all, g.addrs...)
+		}
+		for i, p := range paths {
+			g := gens[i]
+			ts := forests[i]
+			if wi%2 == 0 {
+				g.addrs = all
+			}
 			maxLine := 12
 			os := g.origins(2+r.Intn(6), paths, maxLine)
 			pd := w.AddPath(p.Path, schema.NewBodySchema(), map[string]string{}, nil)
